@@ -409,6 +409,119 @@ def http_part(R, quick):
             R.disagree("outcome under a scripted server failure vs model", case, h12._short(out), h12._short(m[0]))
 
 
+def _child_store(kind, base, limit, payloads, q):
+    """Runs in a forked child: perform the store under RLIMIT_FSIZE = limit and
+    report the outcome class through the pipe q."""
+    import resource
+    import signal
+    signal.signal(signal.SIGXFSZ, signal.SIG_IGN)      # the write then fails with EFBIG
+    resource.setrlimit(resource.RLIMIT_FSIZE, (limit, limit))
+    try:
+        if kind == "sharded":
+            from neuroglancer_scripts.sharded_file_accessor import ShardedFileAccessor
+            acc = ShardedFileAccessor(base, strategy="in memory")
+            for coords, buf in payloads:
+                acc.store_chunk(buf, "s0", coords)
+            acc.close()
+        else:
+            from neuroglancer_scripts.file_accessor import FileAccessor
+            acc = FileAccessor(base, flat=(kind == "flat"), gzip=False)
+            for coords, buf in payloads:
+                acc.store_chunk(buf, "s0", coords)
+        q.send("ok")
+    except BaseException as e:  # noqa: BLE001
+        q.send(type(e).__name__)
+    finally:
+        q.close()
+        os._exit(0)
+
+
+def fsize_sweep_part(R, quick):
+    """Real-OS fault enumeration beyond the model: every store of a small dataset is repeated in a
+    forked child under a file-size limit L for every L below the size of the largest file written
+    (what a full disk does in the middle of a write: a short or failing write).  The operation must
+    either fail with an error or have written everything: a run that reports success must leave a
+    dataset in which every stored chunk reads back."""
+    import json
+    import multiprocessing as mp
+    from neuroglancer_scripts import accessor
+    rng = R.rng
+    ctx = mp.get_context("fork")
+    for kind in (["sharded", "deep"] if quick else ["sharded", "deep", "flat", "sharded"]):
+        cs = 4
+        grid = (2, 2, 1) if quick else (2, 2, 2)
+        payloads = []
+        for x in range(grid[0]):
+            for y in range(grid[1]):
+                for z in range(grid[2]):
+                    payloads.append(((x * cs, x * cs + cs, y * cs, y * cs + cs, z * cs, z * cs + cs),
+                                     bytes(rng.randrange(256) for _ in range(rng.randrange(20, 60)))))
+        info = {"type": "image", "data_type": "uint8", "num_channels": 1,
+                "scales": [{"key": "s0", "size": [g * cs for g in grid], "chunk_sizes": [[cs] * 3],
+                            "encoding": "raw", "resolution": [1, 1, 1], "voxel_offset": [0, 0, 0]}]}
+        if kind == "sharded":
+            info["scales"][0]["sharding"] = {"@type": "neuroglancer_uint64_sharded_v1", "minishard_bits": 1,
+                                             "shard_bits": 0, "preshift_bits": 0, "hash": "identity",
+                                             "minishard_index_encoding": rng.choice(["raw", "gzip"]),
+                                             "data_encoding": "raw"}
+        # size of the largest file of a complete run
+        ref = os.path.join(R.tmp, f"fsz-{kind}-ref", "a", "b", "ds")
+        os.makedirs(ref)
+        open(os.path.join(ref, "info"), "w").write(json.dumps(info))
+        a, b = ctx.Pipe()
+        pr = ctx.Process(target=_child_store, args=(kind, ref, 2 ** 30, payloads, b))
+        pr.start()
+        b.close()
+        res = a.recv() if a.poll(60) else "hang"
+        pr.join(10)
+        top = 0
+        for root, _d, files in os.walk(ref):
+            for f in files:
+                if f != "info":
+                    top = max(top, os.path.getsize(os.path.join(root, f)))
+        if res != "ok" or not top:
+            R.disagree("file-size sweep: the unlimited reference run failed", {"kind": kind}, res, "ok")
+            continue
+        limits = list(range(0, top)) if top <= 400 else sorted(set(rng.sample(range(top), 300)) | {0, 1, top - 1})
+        for lim in limits:
+            base = os.path.join(R.tmp, f"fsz-{kind}-{lim}", "a", "b", "ds")
+            os.makedirs(base)
+            with open(os.path.join(base, "info"), "w") as f:
+                f.write(json.dumps(info))
+            a, b = ctx.Pipe()
+            pr = ctx.Process(target=_child_store, args=(kind, base, lim, payloads, b))
+            pr.start()
+            b.close()
+            res = a.recv() if a.poll(60) else "hang"
+            pr.join(10)
+            case = {"file_size_limit": lim, "accessor": kind, "largest_file": top,
+                    "index_encoding": info["scales"][0].get("sharding", {}).get("minishard_index_encoding")}
+            R.case(case, nontrivial=0 < lim < top)
+            R.count(f"fsize:{kind}:{'ok' if res == 'ok' else 'error'}")
+            if res == "ok":
+                # reported success: everything must be there and correct
+                try:
+                    rd = accessor.get_accessor_for_url(base, {"flat": kind == "flat", "gzip": False})
+                    for coords, buf in payloads:
+                        got = rd.fetch_chunk("s0", coords)
+                        if got != buf:
+                            R.violation("a store reported success under a file-size limit but a chunk reads back "
+                                        "wrong", case, {"coords": list(coords), "got_len": len(got), "want_len": len(buf)})
+                            break
+                except Exception as e:  # noqa: BLE001
+                    R.violation("a store reported success under a file-size limit but the data cannot be read back",
+                                case, {"exc": f"{type(e).__name__}: {e}"[:200]})
+            elif res not in ("OSError", "DataAccessError", "ShardedIOError", "FileNotFoundError", "PermissionError"):
+                if res == "hang":
+                    R.violation("store hung under a file-size limit", case, {})
+                else:
+                    R.violation("a failing write surfaced as an unrelated exception", case, {"exception": res})
+            import shutil
+            shutil.rmtree(os.path.join(R.tmp, f"fsz-{kind}-{lim}"), ignore_errors=True)
+    R.notes.append("file-size-limit sweep (RLIMIT_FSIZE in a forked child, every byte position of the largest file): "
+                   "exercises real short/failing writes of the OS, which the primitive-level model cannot exhibit")
+
+
 def run(R):
     R.rule = RULE
     quick = R.tier == "quick"
@@ -420,6 +533,7 @@ def run(R):
     file_accessor_part(R, quick)
     sharded_file_part(R, quick)
     http_part(R, quick)
+    fsize_sweep_part(R, quick)
 
 
 def replay(R, payload):
